@@ -36,6 +36,10 @@ def generate(rng, tier):
                 cands.append((0x800000000, 0x800000000 + (1 << 33) + 0x10))
         if rep % 4 == 1:
             cands.append((0x400000000 + 0x1000 * rng.below(16), 0x400000000 + 0x20000))     # room for a base address 8 GiB below
+        # an image registered with an EMPTY range (start == end), away from the others: it contains no address, its start
+        # included (S24: the exact hit of the lookup's binary search skipped the end test)
+        e0 = 0x6000000 + 0x1000 * rng.below(64)
+        cands.append((e0, e0))
         cands.append((M64 - 0x100, M64))
         if rng.chance(1, 2):
             cands.append((M64 - 0x300, M64 - 0x100))
@@ -51,7 +55,10 @@ def generate(rng, tier):
                 base_avma = max(0, st - back)
             base_svma = rng.choice([0, 0x100000000])
             pres = rng.choice(["hdr", "eh", "debug"])
-            f = [dict(start=base_svma + max(st - base_avma, 0), len=en - max(st, base_avma), rows=[(0, suites.std_row(arch, "frameless", k))])]
+            if en == st:
+                base_avma = st
+            f = [dict(start=base_svma + max(st - base_avma, 0), len=(en - max(st, base_avma)) if en > st else 0x100,
+                      rows=[(0, suites.std_row(arch, "frameless", k))])]
             s.module_dwarf("M%d" % i, st, en, base_avma, base_svma, pres, f, rng)
             mods["M%d" % i] = dict(start=st, end=en, k=k, pres=pres, base=base_avma)
         unws = {}
